@@ -69,6 +69,11 @@ func c10select(w *world.World, cl *world.Client, text string) ([]string, []c10ro
 	if !w.RunUntil(func() bool { return len(r.Replies) > 0 }, time.Minute) {
 		return nil, nil, "no reply to " + text
 	}
+	return c10decode(cl, r, text)
+}
+
+// c10decode decodes the answer to a SELECT that has been replied to.
+func c10decode(cl *world.Client, r *world.ClientReq, text string) ([]string, []c10row, string) {
 	rr, ok := replyMsg(r).(*message.RowsResult)
 	if !ok {
 		return nil, nil, fmt.Sprintf("%s answered with %v", text, replyMsg(r))
@@ -326,6 +331,62 @@ func c10(e *Env) {
 		// whichever proxy or connection presents the node
 		if !noteID(who+" system.local", in.local) {
 			return
+		}
+		if c.Choose("c10concurrent", 2) == 1 {
+			// several clients read the tables at the same moment: every answer is still the same
+			// function of the configuration
+			var cls []*world.Client
+			var sts []*world.ClientReq
+			for j := 2 + c.Choose("c10readers", 2); j > 0; j-- {
+				cl := w.ConnectClient(in.pi, primitive.ProtocolVersion4)
+				cls = append(cls, cl)
+				sts = append(sts, cl.Send("startup", "", message.NewStartup(), nil))
+			}
+			allReplied := func(rs []*world.ClientReq) func() bool {
+				return func() bool {
+					for _, r := range rs {
+						if len(r.Replies) == 0 {
+							return false
+						}
+					}
+					return true
+				}
+			}
+			if !w.RunUntil(allReplied(sts), time.Minute) {
+				return
+			}
+			texts := []string{"SELECT * FROM system.local", "SELECT * FROM system.peers", "SELECT host_id, rpc_address FROM system.local", "SELECT peer, host_id, rpc_address FROM system.peers"}
+			var reqs []*world.ClientReq
+			var what []string
+			for round := 0; round < 2; round++ {
+				for _, cl := range cls {
+					t := texts[c.Choose("c10readertext", len(texts))]
+					reqs = append(reqs, cl.Send("system", "", world.QueryMsg(t, primitive.ConsistencyLevelOne), nil))
+					what = append(what, t)
+				}
+			}
+			if !w.RunUntil(allReplied(reqs), time.Minute) {
+				if !w.Stopped() {
+					fail("local-read-failed", who+": a system-table read among concurrent readers got no reply")
+				}
+				return
+			}
+			for i, r := range reqs {
+				_, rows, bad := c10decode(r.Client, r, what[i])
+				if bad != "" {
+					fail("local-read-failed", fmt.Sprintf("%s, one of %d concurrent readers: %s", who, len(cls), bad))
+					return
+				}
+				for _, row := range rows {
+					if !noteID(fmt.Sprintf("%s, one of %d concurrent readers, %s", who, len(cls), what[i]), row) {
+						return
+					}
+				}
+			}
+			for _, cl := range cls {
+				cl.Disconnect()
+			}
+			e.Res.Stats["probe.c10.concurrent_readers"]++
 		}
 		if in.self.addr == "" {
 			// No rpc-address: the proxy advertises the address each client reached it through. A
